@@ -20,6 +20,7 @@ def main():
     props = [prop]
     if "--props" in sys.argv:
         props = sys.argv[sys.argv.index("--props") + 1].split(",")
+    race = "-race " if "--race-demo" in sys.argv else ""
     tier = "quick"
     if "--tier" in sys.argv:
         tier = sys.argv[sys.argv.index("--tier") + 1]
@@ -41,7 +42,7 @@ def main():
         meta["baseline_with_patch_passes"] = (rc == 0)
         meta["ran"].append("cd /repo && go test -vet=off -count=1 ./...   (with patch) -> rc=%d" % rc)
         shutil.copy(demo, demo_dst)
-        rc, out = sh(f"go test -vet=off -count=1 ./{pkgdir}/ 2>&1 | tail -15", cwd="/repo")
+        rc, out = sh(f"go test {race}-vet=off -count=1 ./{pkgdir}/ 2>&1 | tail -15", cwd="/repo")
         fails = ("FAIL" in out)
         meta["demo_fails_with_patch"] = fails
         meta["ran"].append(f"demo in {pkgdir}/ with patch -> {'FAIL' if fails else 'pass'}")
@@ -65,7 +66,7 @@ def main():
             os.remove(demo_dst)
         sh("git -C /repo checkout -- . && git -C /repo clean -fdq -- . ':!quadtree/verif_hooks.go'")
     shutil.copy(demo, demo_dst)
-    rc, out = sh(f"go test -vet=off -count=1 ./{pkgdir}/ 2>&1 | tail -5", cwd="/repo")
+    rc, out = sh(f"go test {race}-vet=off -count=1 ./{pkgdir}/ 2>&1 | tail -5", cwd="/repo")
     os.remove(demo_dst)
     meta["demo_passes_without_patch"] = ("FAIL" not in out and rc == 0) or ("ok" in out and "FAIL" not in out)
     meta["ran"].append(f"demo in {pkgdir}/ on the clean tree -> {'pass' if meta['demo_passes_without_patch'] else 'FAIL'}")
